@@ -344,6 +344,25 @@ pub fn spaces(tier: Tier) -> Vec<Space<'static>> {
             judge(&text, acc);
         }
     }));
+    // every one of the 256 byte values inserted at, and substituted for, every position
+    let sub: Arc<Vec<Vec<u8>>> = Arc::new(univ::d2().iter().step_by(9).map(|v| refmodel::text::print(v).into_bytes()).chain([b"[1, 2]".to_vec(), b"{\"a\" : [true , null]}".to_vec(), b" \"x\" ".to_vec()]).collect());
+    let sub1 = sub.clone();
+    sp.push(Space::new("all-256-byte insertions and substitutions at every position", sub.len() as u64, move |i, acc| {
+        let t = &sub1[i as usize];
+        for pos in 0..=t.len() {
+            for b in 0..=255u8 {
+                let mut x = t[..pos].to_vec();
+                x.push(b);
+                x.extend_from_slice(&t[pos..]);
+                judge(&x, acc);
+                if pos < t.len() && b != t[pos] {
+                    let mut y = t.clone();
+                    y[pos] = b;
+                    judge(&y, acc);
+                }
+            }
+        }
+    }));
     // (c) single-token corruptions of well-formed renderings
     let base: Arc<Vec<Vec<u8>>> = Arc::new({
         let mut b: Vec<Vec<u8>> = univ::d2().iter().map(|v| refmodel::text::print(v).into_bytes()).collect();
